@@ -424,6 +424,20 @@ impl Fl {
     pub fn fbig<R: Round, const B: Word>(&self, precision: usize) -> FBig<R, B> {
         FBig::from_repr(self.repr::<B>(), Context::<R>::new(precision))
     }
+    /// strip trailing base-B zeros of the significand into the exponent
+    pub fn normalised(&self, base: u64) -> Fl {
+        let mut m = self.sig.mag.big();
+        if m.is_zero() {
+            return Fl { sig: Int::default(), exp: 0 };
+        }
+        let b = BigUint::from(base);
+        let mut e = self.exp;
+        while (&m % &b).is_zero() {
+            m /= &b;
+            e += 1;
+        }
+        Fl { sig: Int { neg: self.sig.neg, mag: crate::bridge::Nat::from_big(&m) }, exp: e }
+    }
     pub fn digits(&self, base: u64) -> u64 {
         // digits of the normalised significand
         let mut m = self.sig.mag.big();
